@@ -121,3 +121,100 @@ Proof.
 Qed.
 
 End Main.
+
+(* ================================================================== *)
+(* non-vacuity: a concrete stochastic MDP and experience                *)
+(* ================================================================== *)
+(* s0: a0 -> s1 (1/2, reward 1) | s2 (1/2, reward -1);  a1 -> s0 (1/2) | s2 (1/2), reward 0;
+   s1: a0 -> s2, reward 2;  s2 absorbing.  gamma = 1/2, step size 1/2, epsilon 1/20,
+   initial_q = [[1;3];[2;.];[5;.]] (the 5 sits at the absorbing state and must be ignored).
+   Three episodes: s0 -a1-> s0 -a0-> s1 -a0-> s2 ; one that starts in the absorbing s2 ; s0 -a0-> s2. *)
+Local Open Scope Q_scope.
+Definition exP : list (list (list Q)) :=
+  [ [[0; 1#2; 1#2]; [1#2; 0; 1#2]]; [[0; 0; 1]; [0; 0; 0]]; [[0; 0; 1]; [0; 0; 0]] ].
+Definition exRw : list (list (list Q)) :=
+  [ [[0; 1; -1]; [0; 0; 0]]; [[0; 0; 2]; [0; 0; 0]]; [[0; 0; 0]; [0; 0; 0]] ].
+Definition exAv := [[true; true]; [true; false]; [true; false]].
+Definition exAb := [false; false; true].
+Definition exIni : list Q := [1#2; 0; 1#2].
+Definition exQ0 : list (list Q) := [[1; 3]; [2; 0]; [5; 0]].
+Definition exStep (s a : nat) (r : Q) (ns na : nat) (c : bool) (p : nat) : event Q :=
+  EStep (mkStep s a r ns na c p []).
+Definition exEvs : list (event Q) :=
+  [ EStart 0%nat; exStep 0 1 0 0 1 true 1; exStep 0 0 1 1 0 false 0; exStep 1 0 2 2 0 true 0;
+    EStart 2%nat; EStart 0%nat; exStep 0 0 (-1) 2 0 true 0 ].
+Definition exM : mdp Q := mQ 3 2 exP exRw exAv exAb exIni (1#2).
+Definition exKeys := [0%nat; 1%nat; 2%nat].
+(* what a correct implementation returns (slightly perturbed, as floats would be) *)
+Definition exIQ : list (list Q) := [[(1#4) + (1#10000000000000000); 9#4]; [2; 0]; [0; 0]].
+Definition exPol : list (list Q) := [[0; 1]; [1; 0]; [1; 0]].
+Definition exIQD : list (list Q) := [[3#4; 21#8]; [2; 0]; [0; 0]].
+Definition exKeysD := [2%nat; 0%nat; 1%nat].
+
+Example ex_check_q :
+  @c10_check Q NumQ exM exQ0 (1#2) (1#20) LQ exEvs exKeys exIQ exPol (1#1000000000000) = all_true6.
+Proof. vm_compute. reflexivity. Qed.
+Example ex_check_double :
+  @c10_check Q NumQ exM exQ0 (1#2) (1#20) LDouble exEvs exKeysD exIQD exPol (1#1000000000000) = all_true6.
+Proof. vm_compute. reflexivity. Qed.
+
+Local Open Scope R_scope.
+Lemma Q2R_half : Q2R (1#2) = 1/2. Proof. unfold Q2R; simpl; lra. Qed.
+
+Example ex_events_ok : Forall (ev_ok (-1) 2) (evsR exEvs).
+Proof.
+  assert (S0 : subprob (distR [])) by (split; [intros ? []|simpl; lra]).
+  unfold evsR, exEvs, exStep. cbn [map eventR]. unfold stepR. cbn [st_r st_dist ev_ok].
+  repeat (apply Forall_cons; [first [exact I|split; [unfold Q2R; simpl; lra|exact S0]]|]).
+  apply Forall_nil.
+Qed.
+
+(* hypotheses of the interval theorem hold on the example, with I = [-2, 4] *)
+Example ex_interval L :
+  forall s a, -2 <= qval (qR 3 2 exP exRw exAv exAb exIni (1#2) exQ0 (1#2) (1#20) L exEvs) s a <= 4.
+Proof.
+  unfold qR.
+  apply (train_in (mR 3 2 exP exRw exAv exAb exIni (1#2)) (q0R exQ0) (Q2R (1#2)) (Q2R (1#20)) (-2) 4 (-1) 2)
+    with (q_lo := 0) (q_hi := 3).
+  - rewrite Q2R_half. lra.
+  - cbn. rewrite Q2R_half. lra.
+  - constructor; cbn [gamma mR mk_mdp]; rewrite ?Q2R_half; lra.
+  - unfold Q2R; simpl; lra.
+  - lra.
+  - lra.
+  - intros s a Hs. unfold q0R, untab2, untab.
+    destruct s as [|[|[|s]]]; cbn in Hs; try discriminate.
+    + destruct a as [|[|a]]; cbn; try (unfold Q2R; simpl; lra). destruct a; cbn; lra.
+    + destruct a as [|[|a]]; cbn; try (unfold Q2R; simpl; lra). destruct a; cbn; lra.
+    + cbn. destruct s; destruct a; cbn; lra.
+  - apply ex_events_ok.
+Qed.
+
+(* ... and the experience is valid, so absorbing entries stay 0 although initial_q says 5 there *)
+Example ex_valid : valid_experience (mR 3 2 exP exRw exAv exAb exIni (1#2)) (evsR exEvs) = true.
+Proof.
+  pose proof (c10_main 3 2 exP exRw exAv exAb exIni (1#2) exQ0 (1#2) (1#20) LQ exEvs exKeys exIQ exPol _ ex_check_q) as H.
+  apply H.
+Qed.
+
+(* the fold really moves the table: SARSA's Q(s0,a0) went from 1 to 1/4 *)
+Example ex_moved :
+  qval (qR 3 2 exP exRw exAv exAb exIni (1#2) exQ0 (1#2) (1#20) LSarsa exEvs) 0%nat 0%nat = 1/4.
+Proof.
+  rewrite <- (proj2 (train_transfer 3 2 exP exRw exAv exAb exIni (1#2) exQ0 (1#2) (1#20) LSarsa exEvs)).
+  replace (qval (train (mQ 3 2 exP exRw exAv exAb exIni (1#2)) (untab2 exQ0) (1#2) (1#20) LSarsa exEvs) 0%nat 0%nat)
+    with (1#4)%Q by (vm_compute; reflexivity).
+  unfold Q2R; simpl; lra.
+Qed.
+
+Theorem ex_nonvacuous :
+  @c10_check Q NumQ exM exQ0 (1#2)%Q (1#20)%Q LQ exEvs exKeys exIQ exPol (1#1000000000000)%Q = all_true6 /\
+  @c10_check Q NumQ exM exQ0 (1#2)%Q (1#20)%Q LDouble exEvs exKeysD exIQD exPol (1#1000000000000)%Q = all_true6 /\
+  Forall (ev_ok (-1) 2) (evsR exEvs) /\
+  valid_experience (mR 3 2 exP exRw exAv exAb exIni (1#2)%Q) (evsR exEvs) = true /\
+  (forall L s a, -2 <= qval (qR 3 2 exP exRw exAv exAb exIni (1#2)%Q exQ0 (1#2)%Q (1#20)%Q L exEvs) s a <= 4) /\
+  qval (qR 3 2 exP exRw exAv exAb exIni (1#2)%Q exQ0 (1#2)%Q (1#20)%Q LSarsa exEvs) 0%nat 0%nat = 1/4.
+Proof.
+  split; [exact ex_check_q|]. split; [exact ex_check_double|]. split; [exact ex_events_ok|].
+  split; [exact ex_valid|]. split; [exact ex_interval|exact ex_moved].
+Qed.
